@@ -192,6 +192,31 @@ def bullet_bodies(tier, seed):
             "evaluations": n, "distinct_nontrivial": n, "failures": fails, "samples": [{"text": page(["    -     - x"], "- 240101#aa note k:: v")}], "replay_fn": "replay_text"}
 
 
+DATE_WORDS = ["2024-04-31", "2023-02-29", "2024-02-30", "2024-06-31", "2024-13-01", "2024-00-10", "2024-01-00", "2024-01-32", "0000-00-00", "9999-99-99", "2024-02-29",
+              "240431", "230229", "241301", "240100", "000000", "999999", "240229",
+              "240431#ab", "230229#abc", "241301#00", "000000#00", "240229#zz", "999999#ZZZ", "240100#a0"]
+
+
+def date_words(tier, seed):
+    """Date-shaped and ZID-shaped words that are (or are not) calendar dates, in every position a word can take."""
+    zdir = Path(tempfile.mkdtemp(prefix="zorgverif-c08d-"))
+    fails, n = [], 0
+    try:
+        for w in DATE_WORDS:
+            for text in (f"# T {w}\n\n- 240101#aa note\n\n", f"# T\n# {w} second head line\n\n- 240101#aa note\n\n", f"# T\n\n- {w} note starts with it\n\n",
+                         f"# T\n\n- 240101#aa note with {w} inside\n\n", f"# T\n\no P1 {w} 240101#ab todo\n\n", f"# T\n\n- 240101#aa note\n  * {w} bullet\n\n",
+                         f"# T\n\n- 240101#aa note due::{w}\n\n", f"# T\n\n- 240101#aa note\n  * due:: {w}\n\n", f"# T\n\n" + "#" * 32 + f" Section {w}\n\n- 240101#aa note\n\n",
+                         f"# T\n\n- {w} {w} twice\nx {w}\n\n", f"# T\n\n- 240101#aa see [[{w}]] and [{w}] ({w})\n\n"):
+                err = check_text(text, zdir)
+                n += 1
+                if err:
+                    fails.append({"text": text, "error": err})
+    finally:
+        shutil.rmtree(zdir, ignore_errors=True)
+    return {"name": "date_words", "bound": f"{len(DATE_WORDS)} date- / ZID-shaped words (calendar dates, impossible days and months, leap days) x 11 positions (title, head, first word, body, todo, bullet, property value, section header, links)",
+            "evaluations": n, "distinct_nontrivial": n, "failures": fails, "samples": [{"text": "# T\n\n- 240101#aa note with 2024-04-31 inside\n\n"}], "replay_fn": "replay_text"}
+
+
 def refusal(tier, seed):
     """`db create` / `db reindex` refuse a broken page unless it is whitelisted (histories of whitelists and page names)."""
     from checks.zdirlab import Lab
@@ -255,4 +280,4 @@ def refusal(tier, seed):
             "evaluations": evals, "distinct_nontrivial": evals, "failures": fails, "samples": [{"names": list(name_sets[0])}], "replay_fn": "replay_text"}
 
 
-BOUNDED = [invalid_text, bullet_bodies, pages, refusal]
+BOUNDED = [invalid_text, bullet_bodies, date_words, pages, refusal]
